@@ -2,3 +2,7 @@
 import Jb.Model.Scalar
 import Jb.Model.Condition
 import Jb.Props.C20
+import Jb.Model.Duration
+import Jb.Model.Speech
+import Jb.Model.Weights
+import Jb.Props.C02
